@@ -69,9 +69,12 @@ subset of the supports the library itself writes), in both modes.
         `get` / `rank` / `select` shifted a `usize` by 64 in `split` / `combine` (debug: panic; release: wrong
         bucket, `unwrap` on `None`) — defect F13, found through `sparse_width_64_file`, reproduced on the real
         library and REPAIRED (`fix:` commit 26c56a9: both shifts guarded like `get_buckets` already was).  The
-        model's `Sparse.split` / `combine` use unbounded `Nat` shifts, i.e. they describe the repaired code
-        (`index >>> 64 = 0` for every `usize`); width 64 is now exercised by the correspondence check (document-level
-        encoder with every width 1..=64) and the minimised file is in `corpus/C07`;
+        first-written code is kept in the model (`Sparse.splitOld` / `combineOld`): it equals the model's
+        `split` / `combine` below width 64 and fails at width 64 — `sparse_width_64_old_code_fails`.  The model's
+        `Sparse.split` / `combine` use unbounded `Nat` shifts, i.e. they describe the repaired code
+        (`index >>> 64 = 0` for every `usize`): `sparse_width_64_repaired_code_agrees_with_model`; width 64 is now
+        exercised by the correspondence check (document-level encoder with every width 1..=64) and the minimised
+        file is in `corpus/C07`;
       - run-length: every integer minimally encoded (`Format2.RLCanon`) — FALSE without it, see
         `rl_nonminimal_encoding_file` (reading 4): a document-valid file on which the library loads and then
         panics in `get` (shift by 66 bits in `decode`, debug build);
@@ -81,6 +84,7 @@ subset of the supports the library itself writes), in both modes.
 -/
 import Sds.Proofs.Format
 import Sds.Proofs.Format2
+import Sds.Proofs.SafeApi
 
 namespace Sds.C07
 open Sds Outcome SupportProofs
@@ -383,17 +387,58 @@ theorem sparse_document_file_with_library_supports_loads (lenE : Word) (H : List
         ok (s, rest) ∧ s.Encodes n w P ∧ H = highBits w (Sparse.getBuckets n w) P :=
   Format2.sparse_doc_load_any_supports lenE H rk sl sz r' rest w low n P hH h hlow hw
 
-/-- **`w ≤ 63` is needed (reading 5).**  The 13-element file `[5, 1, 2, 1, 1, 0, 0, 0, 1, 64, 64, 1, 3]` (`n = 5`,
-`high` = bits `10`, one low part of width 64 with value 3) is a sparse bitvector of the document with content
-`(5, [3])` and is loaded by the library; no vector `Encodes` anything at width 64.  On the library as first
-written every `get` / `rank` / `select` on the loaded vector shifted a `usize` by 64 (`sparse_vector.rs`: `split`,
-`combine`) — defect F13, repaired.  The model answers correctly (`Format2.sp_w64_model_answers`): its shifts are
-unbounded, which is the behaviour of the repaired code; the correspondence check now runs this file. -/
+/-- **`w ≤ 63` is needed for the invariant (reading 5).**  The 13-element file
+`[5, 1, 2, 1, 1, 0, 0, 0, 1, 64, 64, 1, 3]` (`n = 5`, `high` = bits `10`, one low part of width 64 with value 3) is a
+sparse bitvector of the document with content `(5, [3])` and is loaded by the library; no vector `Encodes` anything at
+width 64.  This file found defect F13 (REPAIRED, `fix:` commit 26c56a9): `split` / `combine` as first written shifted
+a `usize` by 64 on it.  The first-written code is kept in the model as `Sparse.splitOld` / `Sparse.combineOld` and is
+the counterexample (`sparse_width_64_old_code_fails`); the model's `Sparse.split` / `Sparse.combine` (unbounded
+shifts) are what the repaired, guarded code computes (`sparse_width_64_repaired_code_agrees_with_model`), and the model
+answers correctly on this file (`Format2.sp_w64_model_answers`); the correspondence check runs it. -/
 theorem sparse_width_64_file :
     Doc.sparse Format2.sp_w64_file = some ((5, [3]), []) ∧
     sparseC.load Format2.sp_w64_file = ok (Format2.sp_w64_vec, []) ∧
     ∀ (s : Sparse) (n : Nat) (P : List Nat), ¬ s.Encodes n 64 P :=
   ⟨Format2.sp_w64_doc_valid, Format2.sp_w64_model_loads, Format2.sp_w64_not_encodes⟩
+
+/-- **F13: the code as first written.**  `split` / `combine` with the width itself as shift amount
+(`index >> self.low.width()`, `(high - low) << self.low.width()`; Rust: a shift of a `usize` by 64 panics with overflow
+checks on and uses the amount modulo 64 without them).  Below width 64 they ARE the model's definitions, in both
+modes.  At width 64 they are not: with overflow checks `split` panics on every index and `combine` never returns;
+without them `split` returns the index itself as high part (`index >> 0`), which differs from the model's (and the
+repaired code's) `(0, index)` for every index but 0.  Concretely on the loaded file of `sparse_width_64_file`, index 3
+(its one set bit): panic, resp. bucket 3 instead of bucket 0. -/
+theorem sparse_width_64_old_code_fails :
+    (∀ (m : Mode) (s : Sparse), s.width < 64 →
+      (∀ i, Sparse.splitOld m s i = ok (s.split i)) ∧ (∀ p, Sparse.combineOld m s p = s.combine m p)) ∧
+    (∀ (s : Sparse), s.width = 64 →
+      (∀ i, Sparse.splitOld .checked s i = fault (.panic .overflow)) ∧
+      (∀ p r, Sparse.combineOld .checked s p ≠ ok r) ∧
+      (∀ i, Sparse.splitOld .wrapping s i = ok (i, i % 2 ^ 64)) ∧
+      (∀ i, 0 < i → i < 2 ^ 64 → Sparse.splitOld .wrapping s i ≠ ok (s.split i))) ∧
+    Format2.sp_w64_vec.width = 64 ∧
+    Sparse.splitOld .checked Format2.sp_w64_vec 3 = fault (.panic .overflow) ∧
+    Sparse.splitOld .wrapping Format2.sp_w64_vec 3 = ok (3, 3) ∧
+    Format2.sp_w64_vec.split 3 = (0, 3) :=
+  ⟨fun m s h => ⟨fun i => SafeApi.splitOld_eq m s i h, fun p => SafeApi.combineOld_eq m s p h⟩,
+   fun s h => ⟨fun i => SafeApi.splitOld_checked_w64 s i (by omega),
+     fun p r => SafeApi.combineOld_checked_w64 s p (by omega) r,
+     fun i => SafeApi.splitOld_wrapping_w64 s i h,
+     fun i h0 hi => SafeApi.splitOld_wrapping_ne_split s i h h0 hi⟩,
+   SafeApi.sp_w64_width, SafeApi.sp_w64_old_split.1, SafeApi.sp_w64_old_split.2.1, SafeApi.sp_w64_old_split.2.2⟩
+
+/-- **F13 repaired: the guarded code is the model.**  At width 64 the model's `split` gives `(0, i)` for every
+`usize` index, and every `usize` shifted left by 64 is 0; hence the transcription of the repaired Rust code
+(`SafeApi.splitGuarded`: `high = if width < 64 { index >> width } else { 0 }`, `low = index & low_set(width)`;
+`SafeApi.combineGuarded`: `high = if width < 64 { (pos.high - pos.low) << width } else { 0 }`) equals
+`Sparse.split` / `Sparse.combine` for EVERY width up to 64, every `usize` index, every position pair, both modes -/
+theorem sparse_width_64_repaired_code_agrees_with_model :
+    (∀ (s : Sparse) (i : Nat), s.width = 64 → i < 2 ^ 64 → s.split i = (0, i)) ∧
+    (∀ d : Nat, (d <<< 64) % U64 = 0) ∧
+    (∀ (s : Sparse) (i : Nat), s.width ≤ 64 → i < 2 ^ 64 → SafeApi.splitGuarded s i = s.split i) ∧
+    (∀ (m : Mode) (s : Sparse) (p : Pos), s.width ≤ 64 → SafeApi.combineGuarded m s p = s.combine m p) :=
+  ⟨fun s i h hi => SafeApi.split_w64 s i h hi, SafeApi.shl64_mod,
+   fun s i h hi => SafeApi.splitGuarded_eq s i h hi, fun m s p h => SafeApi.combineGuarded_eq m s p h⟩
 
 /-- a PRESENT select structure is trusted: `high` = bits `100` carrying the select structure built for `010`; the
 document reads `(8, [1])`, the loader accepts (it checks the superblock count only), and `select(0)` answers 5 while
